@@ -94,23 +94,26 @@ type fnCtx struct {
 	rets   []retInfo
 	ct     *Contract
 	// candidate activation: names of Houdini candidates currently assumed
-	dead      map[string]bool
-	defers    []*ssa.Defer
-	hasRecov  bool
-	notes     []string
-	panics    []string // reach conditions of explicit panics (inline mode)
-	ghost     map[string]string
-	freeVars  map[*ssa.FreeVar]*Val
-	inlineOf  *fnCtx
-	events    []pbEvent
-	gcfg      *ghostCfg
-	windows   []window
-	curPos    token.Pos
-	reads     []readEvent
-	modelVars []modelVar
-	firstIter []string
-	callOrd   map[string]int
-	assertHit map[int]bool
+	dead         map[string]bool
+	defers       []*ssa.Defer
+	hasRecov     bool
+	notes        []string
+	panics       []string // reach conditions of explicit panics (inline mode)
+	ghost        map[string]string
+	freeVars     map[*ssa.FreeVar]*Val
+	inlineOf     *fnCtx
+	events       []pbEvent
+	gcfg         *ghostCfg
+	windows      []window
+	curPos       token.Pos
+	reads        []readEvent
+	modelVars    []modelVar
+	firstIter    []string
+	resetRecv    string
+	lastAdded    ssa.Value
+	lastAddedVal *Val
+	callOrd      map[string]int
+	assertHit    map[int]bool
 }
 
 type retInfo struct {
@@ -752,6 +755,7 @@ func (c *fnCtx) exec(in ssa.Instruction) {
 		c.addObl("make", in.Pos(), fmt.Sprintf("(and (<= 0 %s) (<= %s %s) (<= %s %s))", l, l, cp, cp, maxLen), "")
 		a := c.newRef("mk")
 		et := in.Type().Underlying().(*types.Slice).Elem()
+		c.em.assert(fmt.Sprintf("(=> %s (= (atype %s) %d))", c.reach[c.curB], a, c.eng.elemTypeID(et)))
 		c.zeroSlice(et, a)
 		c.set(in, &Val{K: KSlice, T: []string{a, "0", l, cp}})
 		c.allocCheck(in, l)
@@ -849,7 +853,20 @@ func (c *fnCtx) exec(in ssa.Instruction) {
 		for _, a := range in.Call.Args {
 			c.val(a)
 		}
-	case *ssa.Go, *ssa.Send, *ssa.Select, *ssa.MakeChan:
+	case *ssa.Go:
+		// spawning a goroutine: sequential reasoning continues, everything the goroutine may touch is havocked
+		c.note("goroutine spawned: later heap reads are unconstrained (no interleaving is explored)")
+		var gargs []*Val
+		for _, a := range in.Call.Args {
+			gargs = append(gargs, c.val(a))
+		}
+		if sc := in.Call.StaticCallee(); sc != nil {
+			c.anchoredAsserts(in, sc.Name(), &in.Call, gargs)
+		}
+		c.havocAll()
+	case *ssa.MakeChan:
+		c.set(in, &Val{K: KOpaque, T: []string{c.newRef("chan")}})
+	case *ssa.Send, *ssa.Select:
 		panic(unsupported{fmt.Sprintf("concurrency (%T)", in)})
 	case *ssa.SliceToArrayPointer:
 		panic(unsupported{"slice to array pointer"})
